@@ -27,6 +27,7 @@ ASSUMPTIONS = ['the text of repr() and of the Python traceback tail are outside 
 SHARD = 250
 
 ROOT = {'t': 1}
+SKIPPED = '<skipped value>'
 
 
 class Node:
@@ -40,7 +41,10 @@ def gen_tree(r, depth, ctr, pfail=0.35):
     n.kind = 'leaf' if depth == 0 else r.choice(['leaf', 'nest', 'chain', 'alt', 'or', 'switch', 'chain', 'nest'])
     n.kids, n.vals, n.ok = [], [], True
     if n.kind == 'leaf':
-        n.ok = r.random() > pfail
+        x = r.random()
+        n.ok = x > pfail
+        if x > 0.93:
+            n.kind = 'skip'           # succeeds with the value every Coalesce skips
         return n
     m = r.randint(1, 3)
     n.kids = [gen_tree(r, depth - 1, ctr, pfail) for _ in range(m)]
@@ -52,6 +56,8 @@ def gen_tree(r, depth, ctr, pfail=0.35):
 def to_ir(n):
     if n.kind == 'leaf':
         return ['leaf', n.sid, n.ok]
+    if n.kind == 'skip':
+        return ['skip', n.sid]
     if n.kind == 'switch':
         return ['switch', n.sid, [[to_ir(a), to_ir(b)] for a, b in zip(n.kids, n.vals)]]
     return [n.kind, n.sid, [to_ir(k) for k in n.kids]]
@@ -61,6 +67,8 @@ def ir_coq(ir):
     k = ir[0]
     if k == 'leaf':
         return '(Leaf %s %s)' % (cnat(ir[1]), cbool(ir[2]))
+    if k == 'skip':
+        return '(SkipLeaf %s)' % cnat(ir[1])
     if k == 'switch':
         return '(Switch %s %s)' % (cnat(ir[1]), clist('(%s, %s)' % (ir_coq(a), ir_coq(b)) for a, b in ir[2]))
     name = {'nest': 'Nest', 'chain': 'Chain', 'alt': 'Alt', 'or': 'OrS'}[k]
@@ -72,7 +80,9 @@ def realise(ir, reg):
     import glom
     from glom.matching import Switch
     k = ir[0]
-    if k == 'leaf':
+    if k == 'skip':
+        sp = glom.Val(SKIPPED)
+    elif k == 'leaf':
         if ir[2] and ir[1] % 3 == 0:
             sp = mk_copy(ir[1], reg)          # succeeds with a NEW object that is equal to the one it received
         else:
@@ -86,7 +96,7 @@ def realise(ir, reg):
         elif k == 'chain':
             sp = tuple(subs)
         elif k == 'alt':
-            sp = glom.Coalesce(*subs)
+            sp = glom.Coalesce(*subs, skip=SKIPPED)
         else:
             sp = glom.Or(*subs)
     reg['by_id'][id(sp)] = ir[1]
@@ -108,7 +118,7 @@ def mk_copy(sid, reg):
 
 
 def depth_of(ir):
-    if ir[0] == 'leaf':
+    if ir[0] in ('leaf', 'skip'):
         return 0
     if ir[0] == 'switch':
         return 1 + max(max(depth_of(a), depth_of(b)) for a, b in ir[2])
@@ -116,7 +126,7 @@ def depth_of(ir):
 
 
 def has_branch(ir):
-    if ir[0] == 'leaf':
+    if ir[0] in ('leaf', 'skip'):
         return False
     if ir[0] in ('alt', 'or', 'switch'):
         return True
@@ -337,6 +347,9 @@ def corpus():
                                                                                    ['chain', 7, [['leaf', 8, True], ['leaf', 9, False]]]]]]]},
         {'kind': 'trace', 'tree': ['nest', 1, [['switch', 2, [[['leaf', 3, False], ['leaf', 4, True]], [['leaf', 5, True], ['leaf', 6, False]]]]]]},
         {'kind': 'trace', 'tree': ['alt', 1, [['alt', 2, [['leaf', 3, False]]], ['or', 4, [['leaf', 5, False], ['leaf', 6, False]]]]]},
+        # one failed alternative followed by one whose value is skipped: the failed one is still a branch of the trace
+        {'kind': 'trace', 'tree': ['alt', 1, [['leaf', 2, False], ['skip', 3]]]},
+        {'kind': 'trace', 'tree': ['chain', 1, [['leaf', 2, True], ['alt', 3, [['skip', 4], ['leaf', 5, False], ['skip', 6]]]]]},
     ]
     out += [{'kind': 'message', 'i': i} for i in range(24)]
     return out
